@@ -60,6 +60,7 @@ impl Prop for C01 {
             "probe.rejected_between_accepted",
             "probe.zero_sample_track",
             "probe.transparent_io_faults",
-        , "probe.write_end_retried_after_failure"]
+            "probe.write_end_retried_after_failure",
+        ]
     }
 }
